@@ -61,6 +61,7 @@ type Exec struct {
 	pool        *Pool
 	deadline    time.Time
 	chanCaps    map[*Object]*Term
+	rootPkg     *ssa.Package
 	Havoc       *HavocEnv
 	feasCalls   int
 	feasPruned  int
